@@ -434,6 +434,11 @@ impl<'a, 'tcx> Cx<'a, 'tcx> {
 							return Some((&pats[0], iter, a.body));
 						}
 					}
+					if let hir::PatKind::Struct(_, fields, _) = &a.pat.kind {
+						if fields.len() == 1 {
+							return Some((fields[0].pat, iter, a.body));
+						}
+					}
 				}
 			}
 		}
